@@ -15,7 +15,7 @@ CHECKS = {
   text=('Theorems over all schedules of the hand-written models: a subscription never sends on a closed channel or closes twice (any buffer, Senders, consumer); a woken teardown is never stuck behind an unread '
         'channel, an unsettled message or a Nack in progress and its steps are bounded by a measure (it terminates with both channels closed once and every Sender returned); the registry never panics after the D7 repair (refuted by a witness schedule for the pinned Publish: nil-map write after Close); the subscriber '
         'decorator\'s pump closes its channel once, and with the D8 repair a Close/cancel is never stuck behind an unread decorated channel and every internal step decreases a measure (refuted for the pinned pump: Close hangs). '
-        'Tied to the code on every run: stamped logs of random + 14 forced overlaps (Publish/Subscribe/Sender/teardown x Close/cancel) replayed on the models; watchdog verdicts (Close/cancel return, channels closed, '
+        'Tied to the code on every run: stamped logs of random + 18 forced overlaps (Publish/Subscribe/Sender/teardown x Close/cancel) replayed on the models; watchdog verdicts (Close/cancel return, channels closed, '
         'no goroutine left, Publish/Subscribe error after Close, other subscriptions unaffected by a cancel), decorated scenarios with 1-2 layers.'),
   note=_TRUST + 'Termination on the implementation is a watchdog verdict (testing); in the models the *_partial theorems are absence-of-stuck-state results. Data races: -race build in the thorough tier (testing).',
   technique='Coq proof (invariants + measure over thread-level LTSs, refutation witnesses by vm_compute) + schedule-replay correspondence check + watchdog/leak oracles',
